@@ -69,7 +69,8 @@ def main(pid):
             o = obs[ix]
             bad = [(c["cls"], c["year"], c["myear4"], c["exact"], c["var"], c["guess"]) for c in o["def"] if c["res"]][:4]
             vd.violation(cl, {"text": o["text"], "default": bad, "remove_ambiguous": [(c["cls"], c["s"], c["e"]) for c in o["ra"]],
-                              "eds": o["eds"]}, {"clause": cl, "n_cites": len(o["def"])})
+                              "eds": o["eds"]}, {"clause": cl, "n_cites": len(o["def"])},
+                         judge=vlib.J("Trace_Editions", "Trace_Editions.cfg", o), rerun=vlib.R("drv_extract", "run_editions", {"text": texts[ix]}))
     for ix, _ in drifts:
         vd.spec_drift("Editions", f"text {obs[ix]['text']!r}")
     ev.sample({"text": obs[0]["text"], "citations": [(c["cls"], c["year"], c["guess"]) for c in obs[0]["def"]]})
